@@ -367,6 +367,19 @@ def get_ignore_parser(project_root: Path | None = None) -> IgnoreDirectiveParser
     return _CACHED_PARSER
 
 
+def new_ignore_parser(project_root: Path) -> IgnoreDirectiveParser:
+    """Create the parser for a new run on project_root and make it the shared one.
+
+    The repository-level patterns (.thailintignore) are read when the parser is created: a new
+    Orchestrator in a long-lived process must see the file as it is now, not as it was when the
+    first one was created.
+    """
+    global _CACHED_PARSER, _CACHED_PROJECT_ROOT  # pylint: disable=global-statement
+    _CACHED_PARSER = IgnoreDirectiveParser(project_root)
+    _CACHED_PROJECT_ROOT = project_root
+    return _CACHED_PARSER
+
+
 def clear_ignore_parser_cache() -> None:
     """Clear cached parser for test isolation or project root changes."""
     global _CACHED_PARSER, _CACHED_PROJECT_ROOT  # pylint: disable=global-statement
